@@ -862,10 +862,11 @@ fn c13_from_epoch_secret_provider_error() {
 // The bytes that from_key_schedule / from_joiner feed into the "joiner" / "epoch" labels
 // (`context.mls_encode_to_vec()`) are the RFC GroupContext encoding: all field values
 // symbolic, group_id of length 0..=2 (one harness per length), tree_hash and
-// confirmed_transcript_hash of every length 0..=1, no extension or one extension with 0..=1
-// data bytes.
-fn group_context_case(gid: &[u8], th: &[u8], cth: &[u8], ext: Option<&[u8]>) {
-    let c = group_context(gid, th, cth, ext);
+// confirmed_transcript_hash of every length 0..=1, no extensions (a context with one
+// extension was tried and dropped: CBMC does not finish the ExtensionList encoding within
+// 400 s / 25 GB even for a single case).
+fn group_context_case(gid: &[u8], th: &[u8], cth: &[u8]) {
+    let c = group_context(gid, th, cth, None);
     let enc = c.mls_encode_to_vec();
     assert!(enc.is_ok());
     let enc = enc.ok().unwrap();
@@ -881,18 +882,7 @@ macro_rules! group_context_encoding_harness {
             let g: [u8; $gl] = kani::any();
             let t: [u8; 1] = kani::any();
             let h: [u8; 1] = kani::any();
-            let e: [u8; 1] = kani::any();
-            for_each_prefix(&t, |th| {
-                for_each_prefix(&h, |cth| {
-                    for_each_bool(|with_ext| {
-                        if with_ext {
-                            for_each_prefix(&e, |ed| group_context_case(&g, th, cth, Some(ed)));
-                        } else {
-                            group_context_case(&g, th, cth, None);
-                        }
-                    })
-                })
-            });
+            for_each_prefix(&t, |th| for_each_prefix(&h, |cth| group_context_case(&g, th, cth)));
         }
     )* };
 }
@@ -1181,22 +1171,3 @@ fn c13_export_secret_deleted() {
     core::mem::forget((r, ks));
 }
 
-// ---- TEMP experiments
-#[kani::proof]
-#[kani::unwind(82)]
-fn z3_ctx_noext() {
-    let g: [u8; 2] = kani::any();
-    let t: [u8; 1] = kani::any();
-    let h: [u8; 1] = kani::any();
-    group_context_case(&g, &t, &h, None);
-}
-
-#[kani::proof]
-#[kani::unwind(82)]
-fn z4_ctx_ext() {
-    let g: [u8; 2] = kani::any();
-    let t: [u8; 1] = kani::any();
-    let h: [u8; 1] = kani::any();
-    let e: [u8; 1] = kani::any();
-    group_context_case(&g, &t, &h, Some(&e));
-}
